@@ -359,7 +359,7 @@ class RaggedArray:
                     vli, ili = self._append(a, fdv, fdi, vlen+vlenincr)
                     vlenincr += vli
                     ilenincr += ili
-            except Exception as exception:
+            except BaseException as exception:  # also KeyboardInterrupt
                 # remove what was written of the subarray that failed, keep
                 # the subarrays that were appended completely before it
                 error = exception
